@@ -1,6 +1,146 @@
-(* C01 property theorems: statements only, each closed by `exact`, with Print Assumptions. *)
-From Coq Require Import ZArith QArith List Bool Arith.
-From QE Require Import Base.Num Base.Cases C09.Solve C09.Model C01.Model C01.Proofs.
+(* C01 property theorems: statements only, each closed by `exact`, with Print Assumptions.
+   Models: C09/Model.v (DiscreteDP) + C01/Model.v (vi / pi / mpi).  Spec-level notions: ddp_ok, Tv_at,
+   dotS (C09/Proofs2.v); stoch, sumQ (C01/Proofs1.v); ddp_distinct (C01/Proofs2.v).
+   All theorems are about the exact (Q) instance of the model. *)
+From Coq Require Import ZArith QArith Qabs List Bool Arith Lia Lqa.
+From QE Require Import Base.Num Base.Cases C09.Solve C09.Model C09.Proofs C01.Model C01.Proofs.
 Import ListNotations.
-Theorem C01_placeholder : True. Proof. exact placeholder. Qed.
-Print Assumptions C01_placeholder.
+
+Theorem C01_bellman_monotone :
+  forall d : ddp Q, ddp_ok d -> stoch d ->
+  forall v w, length v = d_n d -> length w = d_n d ->
+  (forall i, (i < d_n d)%nat -> nth i v 0 <= nth i w 0) ->
+  forall s, (s < d_n d)%nat -> Tv_at d v s <= Tv_at d w s.
+Proof. exact bellman_monotone. Qed.
+Print Assumptions C01_bellman_monotone.
+
+(* sup-norm contraction with modulus beta *)
+Theorem C01_bellman_contraction :
+  forall d : ddp Q, ddp_ok d -> stoch d ->
+  forall v w c, length v = d_n d -> length w = d_n d ->
+  (forall i, (i < d_n d)%nat -> Qabs (nth i v 0 - nth i w 0) <= c) ->
+  forall s, (s < d_n d)%nat -> Qabs (Tv_at d v s - Tv_at d w s) <= d_beta d * c.
+Proof. exact bellman_contraction. Qed.
+Print Assumptions C01_bellman_contraction.
+
+Theorem C01_bellman_fixpoint_unique :
+  forall d : ddp Q, ddp_ok d -> stoch d ->
+  forall v w, length v = d_n d -> length w = d_n d ->
+  (forall s, (s < d_n d)%nat -> Tv_at d v s == nth s v 0) ->
+  (forall s, (s < d_n d)%nat -> Tv_at d w s == nth s w 0) ->
+  forall s, (s < d_n d)%nat -> nth s v 0 == nth s w 0.
+Proof. exact bellman_fixpoint_unique. Qed.
+Print Assumptions C01_bellman_fixpoint_unique.
+
+(* the value of every stationary policy lies below a fixed point of T *)
+Theorem C01_policy_value_le_fixpoint :
+  forall d : ddp Q, ddp_ok d -> stoch d ->
+  forall sigma Rs Qs vs vstar,
+  RQ_sigma_fin d sigma = Some (Rs, Qs) ->
+  length vs = d_n d -> length vstar = d_n d ->
+  (forall s, (s < d_n d)%nat -> nth s vs 0 == nth s (T_sigma_rq (d_beta d) Rs Qs vs) 0) ->
+  (forall s, (s < d_n d)%nat -> Tv_at d vstar s == nth s vstar 0) ->
+  forall s, (s < d_n d)%nat -> nth s vs 0 <= nth s vstar 0.
+Proof. exact policy_value_le_fixpoint. Qed.
+Print Assumptions C01_policy_value_le_fixpoint.
+
+(* policy iteration that stops before the cap: v = T_sigma v = T v, the unique fixed point,
+   dominating the value of every stationary policy *)
+Theorem C01_pi_optimal :
+  forall d : ddp Q, ddp_ok d -> stoch d -> ddp_distinct d ->
+  forall v_init cap v sigma k,
+  policy_iteration d v_init cap = Some (v, sigma, k, true) ->
+  length v = d_n d /\
+  evaluate_policy d sigma = Some v /\
+  compute_greedy d v = sigma /\
+  (forall s, (s < d_n d)%nat -> Tv_at d v s == nth s v 0) /\
+  (forall sigma' Rs' Qs' v', RQ_sigma_fin d sigma' = Some (Rs', Qs') -> length v' = d_n d ->
+     (forall s, (s < d_n d)%nat -> nth s v' 0 == nth s (T_sigma_rq (d_beta d) Rs' Qs' v') 0) ->
+     forall s, (s < d_n d)%nat -> nth s v' 0 <= nth s v 0) /\
+  (forall w, length w = d_n d -> (forall s, (s < d_n d)%nat -> Tv_at d w s == nth s w 0) ->
+     forall s, (s < d_n d)%nat -> nth s w 0 == nth s v 0).
+Proof. exact pi_optimal. Qed.
+Print Assumptions C01_pi_optimal.
+
+(* value iteration that stops on its norm test (with the code's tolerance eps(1-beta)/(2 beta), inf for beta = 0) *)
+Theorem C01_vi_eps_optimal_partial :
+  forall d : ddp Q, ddp_ok d -> stoch d ->
+  forall v_init eps cap vstar,
+  0 < eps ->
+  (forall v0, v_init = Some v0 -> length v0 = d_n d) ->
+  vi_stopped (value_iteration d v_init eps cap) = true ->
+  length vstar = d_n d -> (forall s, (s < d_n d)%nat -> Tv_at d vstar s == nth s vstar 0) ->
+  forall s, (s < d_n d)%nat ->
+    Qabs (nth s (vi_v (value_iteration d v_init eps cap)) 0 - nth s vstar 0) < eps / 2 /\
+    (d_beta d == 0 -> nth s (vi_v (value_iteration d v_init eps cap)) 0 == nth s vstar 0).
+Proof. exact vi_value_eps_half. Qed.
+Print Assumptions C01_vi_eps_optimal_partial.
+
+(* not proved: eps-optimality of the policies returned by vi / mpi; lp (oracle + correspondence) *)
+Definition C01_vi_eps_optimal_full : Prop :=
+  forall d : ddp Q, ddp_ok d -> stoch d -> ddp_distinct d ->
+  forall v_init eps cap vstar vsig,
+  0 < eps -> (forall v0, v_init = Some v0 -> length v0 = d_n d) ->
+  vi_stopped (value_iteration d v_init eps cap) = true ->
+  length vstar = d_n d -> (forall s, (s < d_n d)%nat -> Tv_at d vstar s == nth s vstar 0) ->
+  evaluate_policy d (vi_sigma (value_iteration d v_init eps cap)) = Some vsig ->
+  forall s, (s < d_n d)%nat ->
+    Qabs (nth s (vi_v (value_iteration d v_init eps cap)) 0 - nth s vstar 0) < eps / 2 /\
+    nth s vstar 0 - nth s vsig 0 <= eps.
+(* modified policy iteration that stops on its span test (tolerance eps(1-beta)/beta, inf for beta = 0),
+   with the midrange correction: |v - v*| < eps/2 *)
+Theorem C01_mpi_eps_optimal_partial :
+  forall d : ddp Q, ddp_ok d -> stoch d ->
+  forall v_init eps cap k vout sg it vstar,
+  0 < eps ->
+  (forall v0, v_init = Some v0 -> length v0 = d_n d) ->
+  modified_policy_iteration d v_init eps cap k = Some (vout, sg, it, true) ->
+  length vstar = d_n d -> (forall s, (s < d_n d)%nat -> Tv_at d vstar s == nth s vstar 0) ->
+  forall s, (s < d_n d)%nat -> Qabs (nth s vout 0 - nth s vstar 0) < eps / 2.
+Proof. exact mpi_value_eps_half. Qed.
+Print Assumptions C01_mpi_eps_optimal_partial.
+
+Definition C01_mpi_eps_optimal_full : Prop :=
+  forall d : ddp Q, ddp_ok d -> stoch d -> ddp_distinct d ->
+  forall v_init eps cap k v sigma it vstar vsig,
+  0 < eps -> (forall v0, v_init = Some v0 -> length v0 = d_n d) ->
+  modified_policy_iteration d v_init eps cap k = Some (v, sigma, it, true) ->
+  length vstar = d_n d -> (forall s, (s < d_n d)%nat -> Tv_at d vstar s == nth s vstar 0) ->
+  evaluate_policy d sigma = Some vsig ->
+  forall s, (s < d_n d)%nat -> Qabs (nth s v 0 - nth s vstar 0) < eps / 2 /\ nth s vstar 0 - nth s vsig 0 <= eps.
+
+(* ---- hypotheses are satisfiable: Puterman's example with a duplicated (tied) action and a -inf pair ---- *)
+Definition ex_d : ddp Q :=
+  mkDDP 2 [0;0;0;1;1]%nat [0;1;2;0;1]%nat [0;3;5]%nat
+        [Fin 5; Fin 10; Fin 10; Fin (-1); NegInf]
+        [[1#2;1#2]; [0;1]; [0;1]; [0;1]; [1;0]] (1#2) None.
+Example ex_d_ok : ddp_ok ex_d.
+Proof.
+  constructor.
+  - reflexivity.
+  - intros s Hs. destruct s as [|[|s]]; cbn in *; lia.
+  - intros s Hs. destruct s as [|[|s]]; [exists 0%nat, 5|exists 3%nat, (-1)|cbn in Hs; lia]; cbn; (split; [lia|reflexivity]).
+Qed.
+Example ex_d_stoch : stoch ex_d.
+Proof.
+  constructor.
+  - cbn. lra.
+  - intros j Hj. do 5 (destruct j as [|j]; [reflexivity|]). cbn in Hj. lia.
+  - intros j Hj. do 5 (destruct j as [|j]; [cbn; repeat constructor; lra|]). cbn in Hj. lia.
+  - intros j Hj. do 5 (destruct j as [|j]; [cbn; lra|]). cbn in Hj. lia.
+Qed.
+Example ex_d_distinct : ddp_distinct ex_d.
+Proof.
+  intros s i j Hs Hi Hj. destruct s as [|[|s]]; cbn in *; [| |lia].
+  - do 3 (destruct i as [|i]; [do 3 (destruct j as [|j]; [cbn; intro; (reflexivity || discriminate)|]); lia|]). lia.
+  - do 3 (destruct i as [|i]; [lia|]). do 2 (destruct i as [|i]; [do 3 (destruct j as [|j]; [lia|]); do 2 (destruct j as [|j]; [cbn; intro; (reflexivity || discriminate)|]); lia|]). lia.
+Qed.
+Example ex_d_pi :
+  policy_iteration ex_d (Some [0;100]) 250 = Some ([9; -2], [1;0]%nat, 1%nat, true).
+Proof. vm_compute. reflexivity. Qed.
+Example ex_d_mpi_stops :
+  exists v sg it, modified_policy_iteration ex_d None (1#10) 250 20 = Some (v, sg, it, true).
+Proof. vm_compute. eexists _, _, _. reflexivity. Qed.
+Example ex_d_vi_stops :
+  vi_stopped (value_iteration ex_d None (1#10) 250) = true.
+Proof. vm_compute. reflexivity. Qed.
